@@ -1,0 +1,47 @@
+//go:build verif && cgo && !no_cgo
+
+/*
+ * Hooks for the verification harness under /verif. Compiled only with the build tag
+ * `verif`; thin exported wrappers around existing unexported functions, no logic of
+ * their own beyond argument marshalling.
+ */
+
+package crypto
+
+// #include "bls_include.h"
+import "C"
+
+import "fmt"
+
+// VerifBatchVerifyC calls the C layer's bls_batch_verify with a caller-chosen seed
+// (16 bytes per signature) instead of fresh randomness. `flatSigs` holds len(pks)
+// signatures of SignatureLenBLSBLS12381 bytes each and `h` is the hasher output for
+// the message. It returns the raw per-index result codes of the C layer.
+func VerifBatchVerifyC(pks []PublicKey, flatSigs []byte, h []byte, seed []byte) ([]byte, error) {
+	n := len(pks)
+	if n == 0 || len(flatSigs) != n*SignatureLenBLSBLS12381 || len(seed) != n*(securityBits/8) || len(h) != expandMsgOutput {
+		return nil, fmt.Errorf("verif hook: inconsistent argument lengths")
+	}
+	points := make([]pointE2, 0, n)
+	for _, pk := range pks {
+		pkBLS, ok := pk.(*pubKeyBLSBLS12381)
+		if !ok {
+			return nil, errNotBLSKey
+		}
+		points = append(points, pkBLS.point)
+	}
+	results := make([]byte, n)
+	C.bls_batch_verify(
+		(C.int)(n),
+		(*C.uchar)(&results[0]),
+		(*C.E2)(&points[0]),
+		(*C.uchar)(&flatSigs[0]),
+		(*C.uchar)(&h[0]),
+		(C.int)(len(h)),
+		(*C.uchar)(&seed[0]),
+	)
+	return results, nil
+}
+
+// VerifResultCodes returns the C layer's (valid, invalid) result codes.
+func VerifResultCodes() (int, int) { return int(valid), int(invalid) }
